@@ -637,17 +637,26 @@ def run_other(ctx, mon, numqi):
 def run_cha(ctx, mon, numqi):
     rng = ctx.rng
     ctx.workload('realistic')
-    for it in range(3 if ctx.tier == 'quick' else 12):
+    for it in range(6 if ctx.tier == 'quick' else 16):
         seed = int(rng.integers(2**31))
-        rho = numqi.random.rand_density_matrix(4, seed=int(rng.integers(2**31)))
+        # real Werner / isotropic directions: the LP behind the solver (CLARABEL here) fails with InsufficientProgress on most complex
+        # directions (environmental, counted inconclusive); every third case still uses a random complex state
+        if it % 3 == 2:
+            rho = numqi.random.rand_density_matrix(4, seed=int(rng.integers(2**31)))
+        else:
+            rho = (numqi.state.Werner if it % 2 else numqi.state.Isotropic)(2, float(rng.uniform(0.2, 0.95)))
         ctx.set_case({'api': 'CHABoundaryBagging.solve', 'seed': seed})
         try:
-            def go():
-                model = numqi.entangle.CHABoundaryBagging((2, 2), num_state=40)
-                return model.solve(rho, maxiter=2, use_tqdm=False, seed=seed)
-            a = go()
+            def go(model=None):
+                model = model or numqi.entangle.CHABoundaryBagging((2, 2), num_state=40)
+                return model, model.solve(rho, maxiter=2, use_tqdm=False, seed=seed)
+            m1, a = go()
             ops = noise(ctx, numqi, rng)
-            b = go()
+            _, b = go()
+            # history on one object: solving again with the same arguments and seed must not depend on what the previous solve left behind
+            rho2 = numqi.random.rand_density_matrix(4, seed=int(rng.integers(2**31)))
+            m1.solve(rho2, maxiter=1, use_tqdm=False, seed=int(rng.integers(2**31)))
+            _, c = go(m1)
         except Exception as e:
             ctx.inconclusive('cha-solver-error:' + type(e).__name__)
             continue
@@ -655,6 +664,9 @@ def run_cha(ctx, mon, numqi):
         # the LP solver is deterministic for identical input: identical bags => identical beta
         ctx.check(float(a) == float(b), 'reproducible/not-bit-identical/CHABoundaryBagging.solve', 'CHABoundaryBagging.solve(seed=s) not reproducible',
                   {'a': float(a), 'b': float(b), 'interleaved': ops}, point='reproducible/pair')
+        ctx.check(float(a) == float(c), 'reproducible/depends-on-object-history/CHABoundaryBagging.solve',
+                  'CHABoundaryBagging.solve(dm, seed=s) on an object that was used before differs from the same call on a fresh object',
+                  {'fresh': float(a), 'reused_object': float(c)}, point='reproducible/pair')
 
 
 def run(ctx, shard):
